@@ -146,6 +146,31 @@ func parseUpCfg(s string) *upCfg {
 			sel := ws.SelectFromSlice(acc)
 			c.u.Protocol = func(b []byte) bool { return sel(string(b)) }
 			c.hu.Protocol = sel
+		case "protoc":
+			// Upgrader.ProtocolCustom: the application parses the header value itself - here exactly as the library
+			// would for Protocol (first acceptable token of a well-formed list), so the outcome must be the same
+			var acc []string
+			if f[1] != "" {
+				for _, p := range strings.Split(f[1], "|") {
+					acc = append(acc, string(unhx(p)))
+				}
+			}
+			sel := ws.SelectFromSlice(acc)
+			c.u.ProtocolCustom = func(v []byte) (string, bool) {
+				var selected []byte
+				ok := httphead.ScanTokens(v, func(t []byte) bool {
+					if sel(string(t)) {
+						selected = append([]byte(nil), t...)
+						return false
+					}
+					return true
+				})
+				if ok && selected != nil {
+					return string(selected), true
+				}
+				return "", ok
+			}
+			c.hu.Protocol = sel
 		case "neg":
 			c.ext = &wsflate.Extension{Parameters: parseCfg14(strings.ReplaceAll(f[1], ";", ","))}
 			c.u.Negotiate = c.ext.Negotiate
@@ -421,6 +446,23 @@ func genC09(tier string, r *rng) {
 			emitUp(pc, buildReq("GET", "/", "HTTP/1.1", append(append([]hdr{}, base...), hdr{"Sec-WebSocket-Protocol", pv}), "\r\n"))
 		}
 		emitUp(pc, buildReq("GET", "/", "HTTP/1.1", append(append([]hdr{}, base...), hdr{"Sec-WebSocket-Protocol", " x"}, hdr{"Sec-WebSocket-Protocol", " b, chat"}), "\r\n"))
+		// the list split over several header lines, the acceptable entry on a line that is NOT the last; through
+		// Protocol and through ProtocolCustom
+		for _, lines := range [][]string{{" chat", " x"}, {" b", " c"}, {" x", " b", " y"}, {" c, chat", " b", " chat"}, {" chat", ""}} {
+			hs := append([]hdr{}, base...)
+			for _, l := range lines {
+				hs = append(hs, hdr{"Sec-WebSocket-Protocol", l})
+			}
+			emitUp(pc, buildReq("GET", "/", "HTTP/1.1", hs, "\r\n"))
+			if strings.HasPrefix(pc, "proto:") {
+				emitUp("protoc:"+pc[6:], buildReq("GET", "/", "HTTP/1.1", hs, "\r\n"))
+			}
+		}
+		if strings.HasPrefix(pc, "proto:") {
+			for _, pv := range protoVals {
+				emitUp("protoc:"+pc[6:], buildReq("GET", "/", "HTTP/1.1", append(append([]hdr{}, base...), hdr{"Sec-WebSocket-Protocol", pv}), "\r\n"))
+			}
+		}
 	}
 	// extensions: negotiation through wsflate, deprecated selector
 	extVals := []string{" permessage-deflate", " permessage-deflate; client_max_window_bits", " permessage-deflate; server_max_window_bits=10, permessage-deflate",
